@@ -34,6 +34,19 @@ def step (_ : Unit) (ws : List String) : Unit × String :=
         | none => ((), "bad-op")
       else ((), "bad-op")
     | _, _, _, _, _, _ => ((), "bad-op")
+  -- real-thread experiments (support): what the abstract counter (`sem_conservation`, `sem_no_lost_wakeup`) and the
+  -- timeout clause predict for the counters the stress harness prints
+  | ["stress", ini, np, nw, units, _, _] =>
+    match ini.toNat?, np.toNat?, nw.toNat?, units.toNat? with
+    | some ini, some np, some nw, some units =>
+      if np < 1 ∨ nw < 1 ∨ np > 64 ∨ nw > 64 ∨ (ini + np * units) % nw ≠ 0 then ((), "bad-op")
+      else ((), s!"stress errors=0 overdraw=0 waits={ini + np * units} expected={ini + np * units} leftover=0")
+    | _, _, _, _ => ((), "bad-op")
+  | ["trycount", c] =>
+    match c.toNat? with
+    | some c => ((), s!"trycount ok={c} then=UNAVAILABLE")
+    | none => ((), "bad-op")
+  | ["timeout", _, _, _] => ((), "timeout st=TIMEOUT early=0")
   | _ => ((), "bad-op")
 
 end Driver.C17
